@@ -10,6 +10,7 @@ import (
 	"go/token"
 	"go/types"
 	"os"
+	"reflect"
 	"sort"
 	"strings"
 
@@ -38,6 +39,8 @@ type Prog struct {
 	SrcFuncs []*ssa.Function // all functions (incl. closures, instantiations excluded) with source in absnfs
 	byName   map[string]*ssa.Function
 	callers  map[*ssa.Function][]*CallSite // in-package call sites per callee (static + VTA-resolved)
+	succ     map[*ssa.Function][]*ssa.Function
+	siteCallees map[ssa.CallInstruction][]*ssa.Function
 	NInstr   int
 	GOOS     string
 	GOARCH   string
@@ -130,6 +133,8 @@ func loadProg(repo, goos, goarch string, tests bool) (*Prog, error) {
 	}
 	sort.Slice(p.SrcFuncs, func(i, j int) bool { return fnKey(p.SrcFuncs[i]) < fnKey(p.SrcFuncs[j]) })
 	p.callers = map[*ssa.Function][]*CallSite{}
+	p.succ = map[*ssa.Function][]*ssa.Function{}
+	p.siteCallees = map[ssa.CallInstruction][]*ssa.Function{}
 	inSrc := map[*ssa.Function]bool{}
 	for _, fn := range p.SrcFuncs {
 		inSrc[fn] = true
@@ -140,10 +145,14 @@ func loadProg(repo, goos, goarch string, tests bool) (*Prog, error) {
 			continue
 		}
 		for _, e := range node.Out {
-			if e.Site == nil || !inSrc[e.Callee.Func] {
+			if e.Site == nil {
 				continue
 			}
-			p.callers[e.Callee.Func] = append(p.callers[e.Callee.Func], &CallSite{Caller: fn, Instr: e.Site, Callee: e.Callee.Func})
+			for _, target := range p.throughSyntheticCG(e.Callee.Func, inSrc, 0) {
+				p.callers[target] = append(p.callers[target], &CallSite{Caller: fn, Instr: e.Site, Callee: target})
+				p.succ[fn] = append(p.succ[fn], target)
+				p.siteCallees[e.Site] = append(p.siteCallees[e.Site], target)
+			}
 		}
 	}
 	for _, cs := range p.callers {
@@ -155,6 +164,30 @@ func loadProg(repo, goos, goarch string, tests bool) (*Prog, error) {
 		})
 	}
 	return p, nil
+}
+
+// throughSyntheticCG resolves a call-graph callee to source functions, looking
+// through synthetic thunks / bound-method wrappers (method expressions in the
+// dispatch table, method values).
+func (p *Prog) throughSyntheticCG(f *ssa.Function, inSrc map[*ssa.Function]bool, depth int) []*ssa.Function {
+	if inSrc[f] {
+		return []*ssa.Function{f}
+	}
+	if f == nil || f.Synthetic == "" || depth > 2 {
+		return nil
+	}
+	if f.Pkg != nil && f.Pkg != p.Pkg {
+		return nil
+	}
+	node := p.CG.Nodes[f]
+	if node == nil {
+		return nil
+	}
+	var out []*ssa.Function
+	for _, e := range node.Out {
+		out = append(out, p.throughSyntheticCG(e.Callee.Func, inSrc, depth+1)...)
+	}
+	return out
 }
 
 func rootFn(fn *ssa.Function) *ssa.Function {
@@ -214,6 +247,9 @@ func (p *Prog) pos(pos token.Pos) string {
 }
 
 func (p *Prog) instrPos(i ssa.Instruction) string {
+	if i == nil || (reflect.ValueOf(i).Kind() == reflect.Ptr && reflect.ValueOf(i).IsNil()) {
+		return "-"
+	}
 	pos := i.Pos()
 	if !pos.IsValid() {
 		// fall back to nearest instruction with a position in the block
@@ -854,14 +890,10 @@ func (p *Prog) reachableFrom(roots []*ssa.Function) map[*ssa.Function]bool {
 	for len(stack) > 0 {
 		fn := stack[len(stack)-1]
 		stack = stack[:len(stack)-1]
-		node := p.CG.Nodes[fn]
-		if node != nil {
-			for _, e := range node.Out {
-				c := e.Callee.Func
-				if inSrc[c] && !seen[c] {
-					seen[c] = true
-					stack = append(stack, c)
-				}
+		for _, c := range p.succ[fn] {
+			if inSrc[c] && !seen[c] {
+				seen[c] = true
+				stack = append(stack, c)
 			}
 		}
 		// closures created in fn (MakeClosure) are reachable when referenced
@@ -883,16 +915,7 @@ func (p *Prog) calleesAt(fn *ssa.Function, c ssa.CallInstruction) []*ssa.Functio
 		}
 		return nil
 	}
-	var out []*ssa.Function
-	node := p.CG.Nodes[fn]
-	if node == nil {
-		return nil
-	}
-	for _, e := range node.Out {
-		if e.Site == c && p.byName[fnKey(e.Callee.Func)] == e.Callee.Func {
-			out = append(out, e.Callee.Func)
-		}
-	}
+	out := append([]*ssa.Function{}, p.siteCallees[c]...)
 	sort.Slice(out, func(i, j int) bool { return fnKey(out[i]) < fnKey(out[j]) })
 	return out
 }
